@@ -27,7 +27,6 @@ OUTS = "(Vec<Entry>, usize, usize, u64, u64, u64, u32, bool)"
 UNIT = dict(
     name="batch_read_parse",
     props=["C03", "C01", "C15", "C11"],
-    implicit_props=["C03", "C11"],
     prelude=["core_types.rs", "engine.rs"],
     post_types_prelude=["rkyv.rs"],
     assumptions=[
